@@ -162,6 +162,10 @@ class Parser:
             m = re.match(r'cfg \( not \( feature = (\S+) \) \)$', s)
             if m: return ('feature', m.group(1), False)
             if re.match(r'cfg \( test \)$', s): return ('test',)
+        for a in attrs:
+            # any other conditional compilation (debug_assertions, target_*, cfg_attr, all/any combinations) is not modelled:
+            # it must not be dropped silently
+            if a and a[0].val in ('cfg', 'cfg_attr'): return ('other', ' '.join(str(t.val) for t in a))
         return None
 
     # ---- items
@@ -571,6 +575,7 @@ class Parser:
                 if self.accept('='): init = self.expr()
                 if self.accept('else'): els = self.block()
                 self.expect(';')
+                if cfg is not None: stmts.append(('expr', ('cfg', cfg, ('block', [('let', pat, ty, init, els)], None)), True)); continue
                 stmts.append(('let', pat, ty, init, els)); continue
             if self.at('use') or self.at('const') and not self.at('fn', 1) or self.at('struct') or self.at('fn') or self.at('impl') or self.at('enum') or self.at('static'):
                 it = self.item()
